@@ -449,7 +449,10 @@ DEFOP(patch_apply) {
         std::vector<MVal *> all; mv_collect(doc, all);
         for (MVal *x : all)
             if (x->refkind != R_NONE && x->target)
+            {
                 for (int i = 0; i < NSLOTS; i++) if (w.slots[i] && w.slots[i] == mv_root(x->target)) { w.touch(i); w.mark_utils(i); }
+                if (x->target->kids.size() > 32) w.stats.probes["patched_document_refers_to_a_wide_container"]++;
+            }
     }
     cJSON *patch = nullptr;
     if (((uint64_t)st.A(0) / 13) % 3 == 0) {
